@@ -773,7 +773,9 @@ fn compress_random_case(rng: &mut Rng, obs: &mut Obs) {
         _ => rng.range_usize(40, 300),
     };
     let mut values: Vec<i32> = Vec::with_capacity(n);
-    let lim = (16 << 20) - 1;
+    // TFM dimensions stay below 16.0, but a property list may hold any fix_word below 2048.0 and compress sees them
+    // all: one case in four draws from the whole 32-bit range (sums of two such values do not fit in an i32)
+    let lim = if rng.chance(1, 4) { i32::MAX } else { (16 << 20) - 1 };
     let style = rng.below(8);
     let centres: Vec<i32> = (0..rng.range_usize(1, 20)).map(|_| rng.range_i32(-lim, lim)).collect();
     let spread = 1i32 << rng.range_i32(0, 18);
@@ -796,7 +798,7 @@ fn compress_random_case(rng: &mut Rng, obs: &mut Obs) {
                 }
             }
         };
-        values.push(v.clamp(-lim - 1, lim));
+        values.push(v.clamp(-lim, lim));
     }
     // duplicates: the input is a multiset
     for _ in 0..rng.range_usize(0, 5) {
